@@ -1,6 +1,7 @@
 """C14 — a project that passes validation cannot fail for structural reasons.
 
-Models: M6 `Model/Fixture.lean`, M7 `Model/Deps.lean`, `Model/Policy.lean`, `Model/Prepare.lean`.
+Models: M6 `Model/Fixture.lean`, M7 `Model/Deps.lean`, `Model/Policy.lean`, `Model/Prepare.lean`, `Model/Inject.lean`
+(how a suite's injected fixtures are DERIVED from its attribute declarations: naming shape x place of assignment).
 
 Streams
   C14.validate : generated projects (fixture graphs, uses from tests / setup_suite / injected attributes, test
@@ -12,7 +13,12 @@ Streams
                  The oracle is an independent reference validator written from the property statement.
   C14.run      : every accepted generated project is really run (`PreparedProject.run`, nb_threads in {1, 3},
                  hard time-out) with non-failing bodies: every test must be passed or disabled, the run
-                 successful; nothing of the user code may run when the project is rejected.
+                 successful; nothing of the user code may run when the project is rejected.  Every test body
+                 READS every injected attribute of its suite and relies on the fixture's value.
+
+Injected attributes are declarations `ident = lcc.inject_fixture(fixture | nothing)` with a naming shape (public `x`,
+private `_x`, name-mangled `__x`, dunder-like `__x__`) and a place of assignment (class body, base class, `__init__` on the
+instance, top level of a suite MODULE); `tables` re-extracts "shape x place -> discovered / assigned" from the real loader.
 """
 import os
 import re
@@ -20,18 +26,24 @@ import shutil
 import sys
 import tempfile
 import threading
+import types
 
 import common as C
 
 PROPERTY = "C14"
-LEAN_MODULES = ["LccModel.Props.C14"]
-PROPS_FILES = ["LccModel/Props/C14.lean"]
-NAMESPACES = {"LccModel/Props/C14.lean": "LccModel.C14"}
+LEAN_MODULES = ["LccModel.Props.C14", "LccModel.Props.C14Inject"]
+PROPS_FILES = ["LccModel/Props/C14.lean", "LccModel/Props/C14Inject.lean"]
+NAMESPACES = {"LccModel/Props/C14.lean": "LccModel.C14", "LccModel/Props/C14Inject.lean": "LccModel.C14I"}
+TABLE_OPENS = ("LccModel.Inject",)
 DRIVER = "drivers/C14.lean"
 TRUSTED_BASE = [
     "Lean 4.33.0 kernel; axioms of the property theorems ⊆ {propext, Classical.choice, Quot.sound}",
-    "hand-written models LccModel/Model/{Fixture,Deps,Policy,Prepare}.lean of fixture.py (FixtureRegistry, ScheduledFixtures), "
-    "suite/core.py (resolve_tests_dependencies), metadatapolicy.py and project.py (PreparedProject.create)",
+    "hand-written models LccModel/Model/{Fixture,Deps,Policy,Prepare,Inject}.lean of fixture.py (FixtureRegistry, ScheduledFixtures), "
+    "suite/core.py (resolve_tests_dependencies, Suite._load_injected_fixtures / inject_fixtures), helpers/introspection.py "
+    "(get_object_attributes), metadatapolicy.py and project.py (PreparedProject.create)",
+    "dir() (alphabetical listing), Python's name mangling of __x inside class bodies and attribute shadowing are represented by "
+    "the attribute list handed to the model (effective names computed by the harness, sorted by the driver); the decision "
+    "'shape x place -> discovered / assigned' is re-extracted from the real loader on every run (Generated/C14TablesCheck.lean)",
     "correspondence harness harness/props/c14.py: generated projects are built with the real decorators/loaders and pushed "
     "through the real PreparedProject.create / PreparedProject.run",
     "the scheduler / task graph (task.py, runner.py build_tasks) is NOT modelled here (M1, M2, M5 belong to C01-C03): the "
@@ -43,6 +55,8 @@ ASSUMPTIONS = [
     "callable dependencies (`depends_on(lambda test: ...)`) are pure and total; fixture/test/hook bodies do not fail",
     "per_thread=True only with scope session/suite (the @lcc.fixture decorator rejects anything else at declaration time)",
     "recursion depth of valid chains stays far below sys.getrecursionlimit() (generated chains <= 8 fixtures, <= 7 tests)",
+    "attribute identifiers of a suite are pairwise distinct (no instance attribute shadowing a class attribute of the same name); "
+    "InjectedFixture objects returned by properties are not generated (the helper skips properties)",
     "leaf suites without tests are generated rarely (3%): D1 (empty suite + nb_threads >= 2 raised LookupError in on_suite_end) "
     "was repaired in /repo by 273e673; its witness stays in the corpus of C14.run",
 ]
@@ -66,6 +80,169 @@ def hit(tag):
     _HITS.append(tag)
 
 
+def chk_inj(holder, suite_path, attr, expected, test_path):
+    """What a correct test body does with an injected attribute: it READS it and relies on the fixture's value.
+    `holder` is the suite object (class-based suite) or the module's globals."""
+    from lemoncheesecake.suite.core import InjectedFixture
+
+    missing = object()
+    v = holder.get(attr, missing) if isinstance(holder, dict) else getattr(holder, attr, missing)
+    if v is missing or isinstance(v, InjectedFixture) or (expected is not None and v != expected):
+        hit("inj-miss:%s:%s:%s" % (suite_path, attr, test_path))
+        return "injected attribute %s of suite %s does not hold the value of its fixture: %r" % (attr, suite_path, v)
+    hit("inj-ok:%s:%s:%s" % (suite_path, attr, test_path))
+    return None
+
+
+# --------------------------------------------------------------------------------------------
+# injected attributes: `ident = lcc.inject_fixture(fixture)` with a naming shape and a place of assignment
+# --------------------------------------------------------------------------------------------
+SHAPES = ("pub", "priv", "mangled", "dunder")
+PLACES = ("body", "base", "init", "module")
+SHAPE_IDENTS = {      # representative identifiers of every naming shape (tables); the first one decorates generated idents
+    "pub": ["x", "x_", "x__", "a_b"],
+    "priv": ["_x", "_x_", "_x__"],
+    "mangled": ["__x", "__x_", "___x"],
+    "dunder": ["__x__", "___x___", "__x_y__"],
+}
+
+
+def shape_of(ident):
+    """naming shape of an identifier as written in the source"""
+    if ident.startswith("__") and ident.endswith("__") and len(ident) > 4:
+        return "dunder"
+    if ident.startswith("__"):
+        return "mangled"      # Python mangles `__x` inside a class body to `_Cls__x`
+    if ident.startswith("_"):
+        return "priv"
+    return "pub"
+
+
+def decorate(base, shape):
+    return {"pub": base, "priv": "_" + base, "mangled": "__" + base, "dunder": "__" + base + "__"}[shape]
+
+
+def base_class_name(s):
+    return "B_" + s["name"]
+
+
+def effective_name(s, a):
+    """the key under which `dir()` lists the attribute (Python's name mangling inside class bodies)"""
+    if a["place"] == "module" or shape_of(a["ident"]) != "mangled":
+        return a["ident"]
+    owner = base_class_name(s) if a["place"] == "base" else s["name"]
+    return "_" + owner.lstrip("_") + a["ident"]
+
+
+def attr_key(s, a):
+    """the fixture the attribute names (`inject_fixture()` without a name: the variable's own name)"""
+    return a["fixture"] or effective_name(s, a)
+
+
+def attr_class(s, a, fine=True):
+    """input class of an injected attribute: shape@place (features) / shape@class|module (signatures)"""
+    pl = a["place"] if fine else ("module" if a["place"] == "module" else "class")
+    return "%s@%s" % (shape_of(a["ident"]), pl)
+
+
+def suite_uses(s, drop=()):
+    """the property's reading: EVERY injected attribute of the suite is a fixture use, then the setup_suite arguments"""
+    return [attr_key(s, a) for a in s["attrs"] if attr_class(s, a, fine=False) not in drop] + list(s["setup_args"] or [])
+
+
+def exonerated_by_sibling(s, a, spath, tpath, hits):
+    """some other attribute of suite `s` with the same input class (shape@class|module) that injects the same fixture
+    as `a` held its value when the same test read it"""
+    for b in s["attrs"]:
+        if b is not a and attr_key(s, b) == attr_key(s, a) and attr_class(s, b, fine=False) == attr_class(s, a, fine=False):
+            if ("inj-ok:%s:%s:%s" % (spath, effective_name(s, b), tpath)) in hits:
+                return True
+    return False
+
+
+def dup_keys(s):
+    keys = [attr_key(s, a) for a in s["attrs"]]
+    return {k for k in keys if keys.count(k) > 1}
+
+
+# --------------------------------------------------------------------------------------------
+# decision tables, extracted by EXECUTING the real loader on every naming shape x place of assignment
+# --------------------------------------------------------------------------------------------
+
+def _probe_suite(ident, place, arg_src, twice=False):
+    """a real suite holding `ident = lcc.inject_fixture(<arg_src>)` at `place` (with `twice`: and a public attribute
+    `zz = lcc.inject_fixture(<arg_src>)` beside it, in the class body / the module), loaded by the real loader
+    -> (Suite, holder object or module, name under which Python stores the attribute)"""
+    import lemoncheesecake.api as lcc
+    from lemoncheesecake.suite import load_suite_from_class, load_suite_from_module
+
+    s = {"name": "K", "kind": "module" if place == "module" else "class"}
+    a = {"ident": ident, "place": place, "fixture": "f"}
+    inj = "lcc.inject_fixture(%s)" % arg_src
+    if place == "module":
+        mod = types.ModuleType("K")
+        mod.__file__ = os.path.join(tempfile.gettempdir(), "K.py")
+        mod.lcc = lcc
+        exec("%s = %s\n%s@lcc.test('t')\ndef t():\n    pass\n" % (ident, inj, "zz = %s\n" % inj if twice else ""), mod.__dict__)
+        suite = load_suite_from_module(mod)
+    else:
+        src = {"body": "@lcc.suite('K')\nclass K:\n    %s = %s\n",
+               "base": "class B_K:\n    %s = %s\n@lcc.suite('K')\nclass K(B_K):\n    pass\n",
+               "init": "@lcc.suite('K')\nclass K:\n    def __init__(self):\n        self.%s = %s\n"}[place] % (ident, inj)
+        if twice:
+            src += "    zz = %s\n" % inj
+        src += "    @lcc.test('t')\n    def t(self):\n        pass\n"
+        ns = {"lcc": lcc}
+        exec(src, ns)
+        suite = load_suite_from_class(ns["K"])
+    return suite, suite.obj, effective_name(s, a)
+
+
+def tables(ctx):
+    """`discoveryTable` / `assignTable`: (naming shape, place) -> is `ident = lcc.inject_fixture("f")` seen as a fixture use by
+    the loaded suite / does `Suite.inject_fixtures` give the attribute its value; one row per representative identifier.
+    `twiceTable`: the same with a public attribute `zz` injecting the SAME fixture beside it -> do BOTH hold the value (D35).
+    `keyTable`: inject_fixture() / inject_fixture("") / inject_fixture("f") -> does the attribute's own name name the fixture."""
+    lean_shape = {"pub": "Shape.pub", "priv": "Shape.priv", "mangled": "Shape.mangled", "dunder": "Shape.dunder"}
+    lean_place = {"body": "Place.body", "base": "Place.base", "init": "Place.init", "module": "Place.module"}
+    disc, asg = [], []
+    sentinel = object()
+    for shape in SHAPES:
+        for place in PLACES:
+            for ident in SHAPE_IDENTS[shape]:
+                assert shape_of(ident) == shape
+                suite, holder, eff = _probe_suite(ident, place, "'f'")
+                names = list(suite.get_injected_fixture_names())
+                found = "f" in names
+                suite.inject_fixtures({n: sentinel for n in names})
+                got = (holder.__dict__ if place == "module" else vars(holder)).get(eff) is sentinel
+                key = "(%s, %s)" % (lean_shape[shape], lean_place[place])
+                disc.append((key, "true" if found else "false", {"ident": ident, "place": place, "discovered": found}))
+                asg.append((key, "true" if got else "false", {"ident": ident, "place": place, "assigned": got}))
+    # the same fixture injected through TWO attributes of the suite (D35): do BOTH receive the value?
+    twice = []
+    for shape in SHAPES:
+        for place in PLACES:
+            for ident in SHAPE_IDENTS[shape]:
+                suite, holder, eff = _probe_suite(ident, place, "'f'", twice=True)
+                names = list(suite.get_injected_fixture_names())
+                suite.inject_fixtures({n: sentinel for n in names})
+                d = holder.__dict__ if place == "module" else vars(holder)
+                both = d.get(eff) is sentinel and d.get("zz") is sentinel
+                twice.append(("(%s, %s)" % (lean_shape[shape], lean_place[place]), "true" if both else "false",
+                              {"ident": ident, "place": place, "beside": "zz", "names": names, "both_assigned": both}))
+    keys = []
+    for arg_src, lean in (("", "none"), ("''", 'some ""'), ("'f'", 'some "f"')):
+        suite, _, _ = _probe_suite("zz", "body", arg_src)
+        own = list(suite.get_injected_fixture_names()) == ["zz"]
+        keys.append((lean, "true" if own else "false", {"inject_fixture": arg_src, "uses_attribute_name": own}))
+    imp = ("LccModel.Model.Inject",)
+    return [C.Table("discoveryTable", "List ((Shape × Place) × Bool)", disc, imports=imp),
+            C.Table("assignTable", "List ((Shape × Place) × Bool)", asg, imports=imp),
+            C.Table("twiceTable", "List ((Shape × Place) × Bool)", twice, imports=imp),
+            C.Table("keyTable", "List (Option String × Bool)", keys, imports=imp)]
+
+
 # --------------------------------------------------------------------------------------------
 # case -> real project
 # --------------------------------------------------------------------------------------------
@@ -85,65 +262,115 @@ def fixtures_source(case):
     return "\n".join(out)
 
 
-def _suite_source(s, path, ind, preds):
-    pad = "    " * ind
-    out = ["%s@lcc.suite(%r)" % (pad, s["name"])]
-    for k, v in reversed(s["props"]):       # decorators apply bottom-up: the dict order is the case's order
+def _fixture_values(case):
+    """name -> the value the fixture returns (None: builtin / unknown: any real value will do)"""
+    vals = {}
+    for d in case["decls"]:
+        for n in d["names"]:
+            vals[n] = d["names"][0]
+    for b in BUILTINS:
+        vals[b] = None
+    return vals
+
+
+def _test_source(out, pad, s, path, t, preds, vals, module):
+    base = t["name"][:-2] if t["parameters"] else t["name"]
+    out.append("%s@lcc.test(%r)" % (pad, base))
+    for k, v in reversed(t["props"]):
         out.append("%s@lcc.prop(%r, %r)" % (pad, k, v))
-    if s["tags"]:
-        out.append("%s@lcc.tags(%s)" % (pad, ", ".join(repr(t) for t in s["tags"])))
-    if s["disabled"]:
+    if t["tags"]:
+        out.append("%s@lcc.tags(%s)" % (pad, ", ".join(repr(x) for x in t["tags"])))
+    if t["disabled"]:
         out.append("%s@lcc.disabled()" % pad)
-    out.append("%sclass %s:" % (pad, s["name"]))
-    p1 = pad + "    "
-    out.append("%spass" % p1)
-    for k, n in enumerate(s["injected"]):
-        out.append("%si%d = lcc.inject_fixture(%r)" % (p1, k, n))
+    if t["deps"]:
+        ds = []
+        for d in t["deps"]:
+            if "path" in d:
+                ds.append(repr(d["path"]))
+            else:
+                preds.append(frozenset(d["pred"]))
+                ds.append("(lambda test, _s=PREDS[%d]: test.path in _s)" % (len(preds) - 1))
+        out.append("%s@lcc.depends_on(%s)" % (pad, ", ".join(ds)))
+    if t["parameters"]:
+        out.append("%s@lcc.parametrized([%s])" % (pad, "{" + ", ".join("%r: 1" % p for p in t["parameters"]) + "}"))
+    out.append("%sdef %s(%s):" % (pad, base, ", ".join(([] if module else ["self"]) + t["args"])))
+    tp = "%s.%s" % (path, t["name"])
+    out.append("%s    hit('test:%s')" % (pad, tp))
+    # a correct test body READS every injected attribute of its suite and relies on the fixture's value
+    if s["attrs"]:
+        out.append("%s    bad = [m for m in (" % pad)
+        for a in s["attrs"]:
+            out.append("%s        chk_inj(%s, %r, %r, %r, %r)," % (pad, "globals()" if module else "self", path, effective_name(s, a),
+                                                               vals.get(attr_key(s, a)), tp))
+        out.append("%s    ) if m]" % pad)
+        out.append("%s    assert not bad, bad" % pad)
+
+
+def _suite_source(s, path, ind, preds, vals):
+    """a class-based suite (possibly with a base class and an `__init__`) or, at the top level, a suite MODULE"""
+    module = s.get("kind") == "module"
+    pad = "    " * ind
+    out = []
+    if module:
+        info = {"description": s["name"]}
+        if s["props"]:
+            info["properties"] = {k: v for k, v in s["props"]}
+        if s["tags"]:
+            info["tags"] = list(s["tags"])
+        out.append("SUITE = %r" % info)
+        p1 = pad
+    else:
+        based = [a for a in s["attrs"] if a["place"] == "base"]
+        if based:
+            out.append("%sclass %s:" % (pad, base_class_name(s)))
+            for a in based:
+                out.append("%s    %s = lcc.inject_fixture(%s)" % (pad, a["ident"], repr(a["fixture"]) if a["fixture"] is not None else ""))
+        out.append("%s@lcc.suite(%r)" % (pad, s["name"]))
+        for k, v in reversed(s["props"]):       # decorators apply bottom-up: the dict order is the case's order
+            out.append("%s@lcc.prop(%r, %r)" % (pad, k, v))
+        if s["tags"]:
+            out.append("%s@lcc.tags(%s)" % (pad, ", ".join(repr(t) for t in s["tags"])))
+        if s["disabled"]:
+            out.append("%s@lcc.disabled()" % pad)
+        out.append("%sclass %s%s:" % (pad, s["name"], "(%s)" % base_class_name(s) if based else ""))
+        p1 = pad + "    "
+        out.append("%spass" % p1)
+    self_ = [] if module else ["self"]
+    for a in s["attrs"]:
+        if a["place"] in ("body", "module"):
+            out.append("%s%s = lcc.inject_fixture(%s)" % (p1, a["ident"], repr(a["fixture"]) if a["fixture"] is not None else ""))
+    inits = [a for a in s["attrs"] if a["place"] == "init"]
+    if inits:
+        out.append("%sdef __init__(self):" % p1)
+        for a in inits:
+            out.append("%s    self.%s = lcc.inject_fixture(%s)" % (p1, a["ident"], repr(a["fixture"]) if a["fixture"] is not None else ""))
     if s["setup_args"] is not None:
-        out.append("%sdef setup_suite(%s):" % (p1, ", ".join(["self"] + s["setup_args"])))
+        out.append("%sdef setup_suite(%s):" % (p1, ", ".join(self_ + s["setup_args"])))
         out.append("%s    hit('setup_suite:%s')" % (p1, path))
     if s.get("teardown"):
-        out.append("%sdef teardown_suite(self):" % p1)
+        out.append("%sdef teardown_suite(%s):" % (p1, ", ".join(self_)))
         out.append("%s    hit('teardown_suite:%s')" % (p1, path))
     if s.get("test_hooks"):
-        out.append("%sdef setup_test(self, test):" % p1)
+        out.append("%sdef setup_test(%s):" % (p1, ", ".join(self_ + ["test"])))
         out.append("%s    hit('setup_test:%s')" % (p1, path))
-        out.append("%sdef teardown_test(self, test, status):" % p1)
+        out.append("%sdef teardown_test(%s):" % (p1, ", ".join(self_ + ["test", "status"])))
         out.append("%s    hit('teardown_test:%s')" % (p1, path))
     for t in s["tests"]:
-        base = t["name"][:-2] if t["parameters"] else t["name"]
-        out.append("%s@lcc.test(%r)" % (p1, base))
-        for k, v in reversed(t["props"]):
-            out.append("%s@lcc.prop(%r, %r)" % (p1, k, v))
-        if t["tags"]:
-            out.append("%s@lcc.tags(%s)" % (p1, ", ".join(repr(x) for x in t["tags"])))
-        if t["disabled"]:
-            out.append("%s@lcc.disabled()" % p1)
-        if t["deps"]:
-            ds = []
-            for d in t["deps"]:
-                if "path" in d:
-                    ds.append(repr(d["path"]))
-                else:
-                    preds.append(frozenset(d["pred"]))
-                    ds.append("(lambda test, _s=PREDS[%d]: test.path in _s)" % (len(preds) - 1))
-            out.append("%s@lcc.depends_on(%s)" % (p1, ", ".join(ds)))
-        if t["parameters"]:
-            out.append("%s@lcc.parametrized([%s])" % (p1, "{" + ", ".join("%r: 1" % p for p in t["parameters"]) + "}"))
-        out.append("%sdef %s(%s):" % (p1, base, ", ".join(["self"] + t["args"])))
-        out.append("%s    hit('test:%s.%s')" % (p1, path, t["name"]))
+        _test_source(out, p1, s, path, t, preds, vals, module)
     for sub in s["subs"]:
-        out.extend(_suite_source(sub, path + "." + sub["name"], ind + 1, preds))
+        out.extend(_suite_source(sub, path + "." + sub["name"], ind + (0 if module else 1), preds, vals))
     out.append("")
     return out
 
 
 def suites_source(case):
+    """-> ([(suite, source)], preds): one source text per top-level suite (a suite module is its own namespace)"""
     preds = []
+    vals = _fixture_values(case)
     out = []
     for s in case["suites"]:
-        out.extend(_suite_source(s, s["name"], 0, preds))
-    return "\n".join(out), preds
+        out.append((s, "\n".join(_suite_source(s, s["name"], 0, preds, vals))))
+    return out, preds
 
 
 def build_policy(pol):
@@ -167,11 +394,12 @@ def make_project(case, top):
     project on disk: two calls of `load_suites()` return distinct objects."""
     import lemoncheesecake.api as lcc
     from lemoncheesecake.project import Project
-    from lemoncheesecake.suite import load_suites_from_classes
+    from lemoncheesecake.suite import load_suites_from_classes, load_suite_from_module
     from lemoncheesecake.fixture import load_fixtures_from_func
 
     fsrc = fixtures_source(case)
-    ssrc, preds = suites_source(case)
+    ssrcs, preds = suites_source(case)
+    compiled = [(s, compile(src, "<c14-suite-%s>" % s["name"], "exec")) for s, src in ssrcs]
 
     class GenProject(Project):
         def __init__(self):
@@ -179,9 +407,22 @@ def make_project(case, top):
             self.metadata_policy = build_policy(case["policy"])
 
         def load_suites(self):
-            ns = {"lcc": lcc, "hit": hit, "PREDS": preds}
-            exec(compile(ssrc, "<c14-suites>", "exec"), ns)
-            return load_suites_from_classes([ns[s["name"]] for s in case["suites"]])
+            out = []
+            for s, code in compiled:
+                if s.get("kind") == "module":
+                    # a suite module: `load_suite_from_module` on a real module object
+                    mod = types.ModuleType(s["name"])
+                    mod.__file__ = os.path.join(top, s["name"] + ".py")
+                    mod.__dict__.update({"lcc": lcc, "hit": hit, "chk_inj": chk_inj, "PREDS": preds})
+                    exec(code, mod.__dict__)
+                    suite = load_suite_from_module(mod)
+                    if not suite.hidden:
+                        out.append(suite)
+                else:
+                    ns = {"lcc": lcc, "hit": hit, "chk_inj": chk_inj, "PREDS": preds}
+                    exec(code, ns)
+                    out.extend(load_suites_from_classes([ns[s["name"]]]))
+            return out
 
         def load_fixtures(self):
             ns = {"lcc": lcc, "hit": hit}
@@ -263,6 +504,8 @@ def prepare_real(case, top):
     obs = {"accepted": True, "hits": list(_HITS)}
     obs["registry"] = list(reg._fixtures.keys())
     obs["resolved"] = [[t.path, [d.path for d in t.resolved_dependencies]] for t in flatten_tests(prepared.suites)]
+    # what the loader made of the injected attributes (public interface of the Suite objects going to be run)
+    obs["injected"] = [[s.path, list(s.get_injected_fixture_names())] for s in flatten_suites(prepared.suites)]
     try:
         pre = reg.get_fixtures_scheduled_for_pre_run(prepared.suites, fd)
         ses = reg.get_fixtures_scheduled_for_session(prepared.suites, pre, fd)
@@ -300,7 +543,9 @@ def _model_suite(s, path, keep):
             subs.append(m)
     if keep is not None and not tests and not subs:
         return None          # `filter_suites` drops suites that end up empty
-    return {"path": path, "disabled": s["disabled"], "injected": s["injected"],
+    return {"path": path, "disabled": s["disabled"],
+            "attrs": [{"name": effective_name(s, a), "shape": shape_of(a["ident"]), "place": a["place"], "fixture": a["fixture"]}
+                      for a in s["attrs"]],
             "setup_args": s["setup_args"] if s["setup_args"] is not None else [],
             "props": [list(kv) for kv in s["props"]], "tags": s["tags"], "tests": tests, "subs": subs}
 
@@ -346,8 +591,9 @@ def _has_cycle(nodes, succ):
     return seen != len(nodes)
 
 
-def reference_violations(case):
-    """Set of violated classes of the property statement; empty = structurally valid."""
+def reference_violations(case, drop=()):
+    """Set of violated classes of the property statement; empty = structurally valid.
+    (`drop`: classes of injected attributes to leave out — only used to ATTRIBUTE a wrongly accepted project to them)"""
     V = set()
     keep = None if case["keep"] is None else set(case["keep"])
 
@@ -447,7 +693,7 @@ def reference_violations(case):
     for path, s, tests in scheduled_tree():
         if not nonempty(path, s):
             continue
-        for n in list(s["injected"]) + list(s["setup_args"] or []):
+        for n in suite_uses(s, drop):      # every injected attribute, whatever its name and place, then setup_suite's arguments
             if n not in fx:
                 V.add("unknown-fixture")
             else:
@@ -472,6 +718,74 @@ KIND_CLASS = {
 }
 
 
+def dependency_targets(case):
+    """test path -> paths of the tests it depends on (path dependencies, and what callable dependencies select)"""
+    all_tests = {}
+    for path, s, inh in _walk(case["suites"]):
+        for t in s["tests"]:
+            all_tests[path + "." + t["name"]] = t
+    out = {}
+    for p, t in all_tests.items():
+        tg = []
+        for d in t["deps"]:
+            if "path" in d:
+                tg.append(d["path"])
+            else:
+                tg.extend(q for q in all_tests if q in d["pred"] and q != p)
+        out[p] = tg
+    return out
+
+
+def scheduled_suites(case):
+    """(path, suite) of the suites going to be run (`filter_suites` drops the ones that end up empty)"""
+    keep = None if case["keep"] is None else set(case["keep"])
+
+    def nonempty(path, s):
+        if keep is None:
+            return True
+        if any((path + "." + t["name"]) in keep for t in s["tests"]):
+            return True
+        return any(nonempty(path + "." + sub["name"], sub) for sub in s["subs"])
+
+    return [(path, s) for path, s, _ in _walk(case["suites"]) if nonempty(path, s)]
+
+
+def attr_classes(case):
+    return sorted({attr_class(s, a, fine=False) for _, s in scheduled_suites(case) for a in s["attrs"]})
+
+
+def explained_by_attrs(case):
+    """If the violations of the case disappear when some classes of injected attributes are left out: a minimal such
+    set of classes (greedy) — the wrongly accepted project is attributed to THEM.  Otherwise []."""
+    classes = attr_classes(case)
+    if not classes or reference_violations(case, drop=set(classes)):
+        return []
+    K = set(classes)
+    for c in classes:
+        if not reference_violations(case, drop=K - {c}):
+            K.discard(c)
+    return sorted(K)
+
+
+def discovery_failures(case, obs):
+    """Every attribute holding `lcc.inject_fixture(...)` is a fixture use of its suite, whatever the identifier looks like
+    and wherever it is assigned (property: "all uses from tests, setup_suite and injected attributes")."""
+    fails = []
+    seen = dict((p, set(names)) for p, names in obs.get("injected", []))
+    for path, s in scheduled_suites(case):
+        if path not in seen:
+            continue
+        for a in s["attrs"]:
+            if attr_key(s, a) not in seen[path]:
+                cls = attr_class(s, a, fine=False)
+                fails.append(C.Failure("C14/validate/injected-attribute-not-a-fixture-use/" + cls,
+                                       "suite %s: attribute %s = lcc.inject_fixture(%s) (%s, assigned in %s) is not among "
+                                       "Suite.get_injected_fixture_names() = %s" % (
+                                           path, a["ident"], repr(a["fixture"]) if a["fixture"] is not None else "",
+                                           shape_of(a["ident"]), a["place"], sorted(seen[path]))))
+    return fails
+
+
 def validation_failures(case, obs):
     """The completeness half of the property on one observation of the real `PreparedProject.create`."""
     fails = []
@@ -481,11 +795,20 @@ def validation_failures(case, obs):
                                "fixtures / hooks / test bodies ran while the project was being prepared: %s" % obs["hits"][:5]))
     if obs["accepted"]:
         if V:
-            fails.append(C.Failure("C14/validate/invalid-project-accepted/" + "+".join(sorted(V)),
-                                   "the reference validator finds %s but PreparedProject.create accepted the project" % sorted(V)))
+            via = explained_by_attrs(case)
+            if via:
+                # the invalid use sits in injected attributes only: one failure per responsible input class
+                for cls in via:
+                    fails.append(C.Failure("C14/validate/invalid-project-accepted/via-injected-attribute/" + cls,
+                                           "the reference validator finds %s — through %s attributes holding lcc.inject_fixture(...) "
+                                           "— but PreparedProject.create accepted the project" % (sorted(V), cls)))
+            else:
+                fails.append(C.Failure("C14/validate/invalid-project-accepted/" + "+".join(sorted(V)),
+                                       "the reference validator finds %s but PreparedProject.create accepted the project" % sorted(V)))
         if obs.get("sched_error"):
             fails.append(C.Failure("C14/validate/scheduling-of-accepted-project-raised",
                                    "get_fixtures_scheduled_for_* raised on an accepted project: %s" % obs["sched_error"]))
+        fails.extend(discovery_failures(case, obs))
         return fails
     if obs["exc"] != "ValidationError":
         fails.append(C.Failure("C14/validate/crash-instead-of-ValidationError/" + obs["exc"],
@@ -510,7 +833,7 @@ def compare_prepare(obs, ans):
     if ans["result"] == "ok":
         if not obs["accepted"]:
             return "model accepts, code rejects with %s %s.%s: %s" % (obs["exc"], obs["stage"], obs["kind"], obs["msg"])
-        for key in ("registry", "resolved", "pre_run", "session", "suites", "tests"):
+        for key in ("registry", "injected", "resolved", "pre_run", "session", "suites", "tests"):
             if obs.get(key) != ans.get(key):
                 return "%s: code %s vs model %s" % (key, obs.get(key), ans.get(key))
         bad = [r for r in ans["sim"] if r[1] != "ok"]
@@ -536,7 +859,7 @@ def compare_prepare(obs, ans):
 # generator
 # --------------------------------------------------------------------------------------------
 
-FX_POOL = ["fa", "fb", "fc", "fd", "fe", "ff", "fg", "fh", "fi", "fj"]
+FX_POOL = ["fa", "fb", "fc", "fd", "fe", "ff", "fg", "fh", "fi", "_fk"]      # `_fk`: a fixture with a private-looking name
 PROP_KEYS = ["prio", "owner", "kind"]
 PROP_VALUES = ["low", "high", "x"]
 TAGS = ["slow", "fast", "net"]
@@ -673,24 +996,49 @@ def gen_case(rng, defect_rate, run_stream=False):
         return {"name": name, "args": args, "parameters": parameters, "disabled": rng.random() < 0.15, "deps": [],
                 "props": props, "tags": tags}
 
+    def add_attr(s, fixture, shape=None, place=None, nameless=False):
+        """one more `ident = lcc.inject_fixture(fixture)` in suite `s`: naming shape, place of assignment, named or not"""
+        module = s.get("kind") == "module"
+        shape = shape or rng.choice(["pub", "pub", "pub", "priv", "priv", "priv", "mangled", "mangled", "dunder"])
+        place = "module" if module else (place or rng.choice(["body", "body", "body", "body", "base", "base", "init", "init"]))
+        taken = {a["ident"] for a in s["attrs"]}
+        if nameless:
+            # `inject_fixture()`: the variable's own name IS the fixture name (shape = the shape of that name)
+            ident = fixture
+            if ident in taken:
+                return None
+            a = {"ident": ident, "place": place, "fixture": None}
+        else:
+            base = next(b for b in ("ja", "jb", "jc", "jd", "je", "jf", "jg", "jh") if decorate(b, shape) not in taken)
+            a = {"ident": decorate(base, shape), "place": place, "fixture": fixture}
+        s["attrs"].append(a)
+        return a
+
     def mk_suite(depth):
         counter[0] += 1
         name = ("s%d" if depth == 0 else "u%d") % counter[0]
         props, tags = meta("suite")
-        inj = rng.sample(usable_suite, min(rng.choice([0, 0, 1, 2]), len(usable_suite)))
         sargs = None
         if rng.random() < 0.5:
             sargs = rng.sample(usable_suite, min(rng.choice([0, 1, 2]), len(usable_suite)))
-        s = {"name": name, "disabled": rng.random() < 0.1, "injected": inj, "setup_args": sargs,
+        module = depth == 0 and rng.random() < 0.2       # a suite MODULE (only top-level suites can be modules)
+        s = {"name": name, "kind": "module" if module else "class", "disabled": (not module) and rng.random() < 0.1,
+             "attrs": [], "setup_args": sargs,
              "teardown": rng.random() < 0.3, "test_hooks": rng.random() < 0.2, "props": props, "tags": tags,
-             "tests": [mk_test("t%d" % i) for i in range(rng.randint(1, 4))], "subs": []}
+             "tests": [], "subs": []}
+        for f in rng.sample(usable_suite, min(rng.choice([0, 0, 1, 1, 2, 3]), len(usable_suite))):
+            add_attr(s, f, nameless=(f not in BUILTINS and rng.random() < 0.15))
+        if s["attrs"] and rng.random() < 0.04:
+            # the same fixture injected through a second attribute of the suite (D35, repaired: both receive the value)
+            add_attr(s, attr_key(s, rng.choice(s["attrs"])))
+        s["tests"] = [mk_test("t%d" % i) for i in range(rng.randint(1, 4))]
         if depth < 2 and rng.random() < (0.45 if depth == 0 else 0.25):
             s["subs"] = [mk_suite(depth + 1) for _ in range(rng.randint(1, 2))]
         if depth < 2 and rng.random() < 0.03:
             # a leaf suite without tests (e.g. all its tests hidden) — the shape of D1
             counter[0] += 1
-            s["subs"].append({"name": "e%d" % counter[0], "disabled": False, "injected": [], "setup_args": None, "teardown": False,
-                              "test_hooks": False, "props": [], "tags": [], "tests": [], "subs": []})
+            s["subs"].append({"name": "e%d" % counter[0], "kind": "class", "disabled": False, "attrs": [], "setup_args": None,
+                              "teardown": False, "test_hooks": False, "props": [], "tags": [], "tests": [], "subs": []})
         return s
 
     suites = [mk_suite(0) for _ in range(rng.randint(1, 3))]
@@ -705,22 +1053,24 @@ def gen_case(rng, defect_rate, run_stream=False):
             rng.choice(s["tests"])["args"].append("nx1")
         elif kind == "test-fixture_name":
             rng.choice(s["tests"])["args"].append("fixture_name")
-        elif kind == "suite-unknown":
-            (s["injected"] if rng.random() < 0.5 or s["setup_args"] is None else s["setup_args"]).append("nx2")
-        elif kind == "suite-test-scope":
-            ts = [n for n in reg if reg[n]["scope"] == "test" and n != "fixture_name" and n not in BUILTINS]
-            if ts:
-                n = rng.choice(ts)
-                tgt = s["injected"] if rng.random() < 0.5 or s["setup_args"] is None else s["setup_args"]
-                if n not in tgt:
-                    tgt.append(n)
-        elif kind == "suite-per-thread":
-            pts = [n for n in reg if reg[n]["per_thread"]]
-            if pts:
-                n = rng.choice(pts)
-                tgt = s["injected"] if rng.random() < 0.5 or s["setup_args"] is None else s["setup_args"]
-                if n not in tgt:
-                    tgt.append(n)
+        elif kind in ("suite-unknown", "suite-test-scope", "suite-per-thread"):
+            # an invalid suite-level use: through an injected attribute of any naming shape / place, or a setup_suite argument
+            n = None
+            if kind == "suite-unknown":
+                n = "nx2"
+            elif kind == "suite-test-scope":
+                ts = [m for m in reg if reg[m]["scope"] == "test" and m != "fixture_name" and m not in BUILTINS]
+                n = rng.choice(ts) if ts else None
+            else:
+                pts = [m for m in reg if reg[m]["per_thread"]]
+                n = rng.choice(pts) if pts else None
+            if n is not None:
+                if rng.random() < 0.65 or s["setup_args"] is None:
+                    a = add_attr(s, n, nameless=rng.random() < 0.15)
+                    if a is not None:
+                        defects.append("via-attr:" + attr_class(s, a))
+                elif n not in s["setup_args"]:
+                    s["setup_args"].append(n)
 
     # ---- test dependencies: edges from later to earlier tests (acyclic), cross-suite included ----
     tests = [(path + "." + t["name"], t) for path, s, _ in flat for t in s["tests"]]
@@ -802,8 +1152,17 @@ def case_features(case, obs):
         f.append("per-thread")
     if any("pred" in d for _, s, _ in _walk(case["suites"]) for t in s["tests"] for d in t["deps"]):
         f.append("callable-dep")
-    if any(s["injected"] for _, s, _ in _walk(case["suites"])):
+    if any(s["attrs"] for _, s, _ in _walk(case["suites"])):
         f.append("injected")
+    for _, s, _ in _walk(case["suites"]):
+        if s.get("kind") == "module":
+            f.append("suite-module")
+        for a in s["attrs"]:
+            f.append("attr:" + attr_class(s, a))
+            if a["fixture"] is None:
+                f.append("attr-nameless")
+        if dup_keys(s):
+            f.append("attr-same-fixture-twice")
     if any(s["setup_args"] for _, s, _ in _walk(case["suites"])):
         f.append("setup_suite-args")
     if any(t["parameters"] for _, s, _ in _walk(case["suites"]) for t in s["tests"]):
@@ -821,7 +1180,7 @@ def case_features(case, obs):
 
 def nontrivial(case):
     edge = any(p != "fixture_name" for d in case["decls"] for p in d["params"])
-    consumer = any(t["args"] or s["injected"] or s["setup_args"] for _, s, _ in _walk(case["suites"]) for t in s["tests"])
+    consumer = any(t["args"] or s["attrs"] or s["setup_args"] for _, s, _ in _walk(case["suites"]) for t in s["tests"])
     return edge and consumer
 
 
@@ -859,8 +1218,12 @@ def shrink_case(case):
                     c = copy.deepcopy(case); t = get(c)["tests"][j]; t["args"] = list(t["parameters"]); yield c
                 if s0["tests"][j]["props"] or s0["tests"][j]["tags"]:
                     c = copy.deepcopy(case); t = get(c)["tests"][j]; t["props"] = []; t["tags"] = []; yield c
-            if s0["injected"]:
-                c = copy.deepcopy(case); get(c)["injected"] = []; yield c
+            if len(s0["attrs"]) > 1:
+                c = copy.deepcopy(case); get(c)["attrs"] = []; yield c
+            for j in range(len(s0["attrs"])):
+                c = copy.deepcopy(case); del get(c)["attrs"][j]; yield c
+            if s0.get("kind") == "module" and not s0["attrs"]:
+                c = copy.deepcopy(case); get(c)["kind"] = "class"; yield c
             if s0["setup_args"]:
                 c = copy.deepcopy(case); get(c)["setup_args"] = []; yield c
             if s0["props"] or s0["tags"]:
@@ -893,8 +1256,15 @@ def _t(name, args=(), deps=(), disabled=False, props=(), tags=(), parameters=())
             "props": [list(p) for p in props], "tags": list(tags)}
 
 
-def _s(name, tests, subs=(), injected=(), setup_args=None, disabled=False, props=(), tags=(), teardown=False):
-    return {"name": name, "disabled": disabled, "injected": list(injected), "setup_args": setup_args, "teardown": teardown,
+def _a(ident, fixture, place="body"):
+    return {"ident": ident, "place": place, "fixture": fixture}
+
+
+def _s(name, tests, subs=(), injected=(), setup_args=None, disabled=False, props=(), tags=(), teardown=False, attrs=(), kind="class"):
+    """`injected`: fixture names injected through public class-body attributes i0, i1, …; `attrs`: explicit declarations"""
+    return {"name": name, "kind": kind, "disabled": disabled,
+            "attrs": [_a("i%d" % k, n) for k, n in enumerate(injected)] + [dict(a) for a in attrs],
+            "setup_args": setup_args, "teardown": teardown,
             "test_hooks": False, "props": [list(p) for p in props], "tags": list(tags), "tests": list(tests), "subs": list(subs)}
 
 
@@ -914,16 +1284,62 @@ D18_WITNESS = {"policy": NOPOL, "decls": [], "fd": False, "keep": ["s1.a", "s1.b
 D1_WITNESS = {"policy": NOPOL, "decls": [], "fd": False, "keep": None, "defects": [],
               "suites": [_s("s1", [_t("t1")], subs=[_s("e1", [])])]}
 
-CORPUS = [
+# diamond of fixtures over four scopes, multi-name, fixture_name, builtin, per-thread used from test scope
+DIAMOND_CASE = {
+    "policy": NOPOL, "fd": False, "keep": None, "defects": [],
+    "decls": [_d(["fa"], "session"), _d(["fb", "fb2"], "suite", ["fa", "cli_args"]), _d(["fc"], "test", ["fb", "fixture_name"]),
+              _d(["pt"], "suite", ["fa"], per_thread=True), _d(["fd"], "test", ["pt", "fc", "fb"], gen=True),
+              _d(["pre"], "pre_run", ["project_dir"], gen=True)],
+    "suites": [_s("s1", [_t("t1_1", ["fd", "p"], parameters=["p"]), _t("t2", ["fc", "pt"], disabled=True)],
+                  subs=[_s("u1", [_t("t3", ["fb"], deps=[{"path": "s1.t1_1"}])])], injected=["fa"], setup_args=["fb2", "pre"])]}
+
+# injected attributes of every naming shape, at every place of assignment
+_FX3 = [_d(["db"], "session"), _d(["tmp"], "test"), _d(["conn"], "suite", per_thread=True), _d(["_fk"], "suite", ["db"])]
+
+
+def _inj_case(attrs, kind="class", subs=(), fd=False):
+    return {"policy": NOPOL, "fd": fd, "keep": None, "defects": [], "decls": [dict(d) for d in _FX3],
+            "suites": [_s("s1", [_t("t0", ["tmp"]), _t("t1")], attrs=attrs, kind=kind, subs=subs)]}
+
+
+SHAPE_CORPUS = [
+    # VALID fixtures through every discovered shape x place: accepted, and every running test reads the fixture's value
+    _inj_case([_a("ja", "db"), _a("_jb", "db", "base"), _a("__jc", "_fk", "init"), _a("_fk", None), _a("__jd", "project_dir")]),
+    _inj_case([_a("__ja", "db", "base"), _a("_jb", "_fk", "init"), _a("db", None, "init")],
+              subs=[_s("u2", [_t("t0")], attrs=[_a("_ja", "db"), _a("__jb", "db")])], fd=True),
+    _inj_case([_a("ja", "db", "module"), _a("_jb", "db", "module"), _a("__jc", "_fk", "module"), _a("__jd__", "db", "module"),
+               _a("_fk", None, "module")], kind="module", subs=[_s("u2", [_t("t0")], attrs=[_a("_ja", "db", "init")])]),
+    # an INVALID fixture (unknown / test-scoped / per-thread) through every discovered shape x place: must be rejected
+    _inj_case([_a("_ja", "nx")]),
+    _inj_case([_a("__ja", "tmp")]),
+    _inj_case([_a("_ja", "conn", "base")]),
+    _inj_case([_a("_ja", "nx", "init")]),
+    _inj_case([_a("__ja", "nx", "init")]),
+    _inj_case([_a("__ja", "conn", "base")]),
+    _inj_case([_a("_nx", None)]),
+    _inj_case([_a("__ja", None)]),                     # inject_fixture() in a name-mangled attribute: names the fixture `_s1__ja`
+    _inj_case([_a("__ja__", "nx", "module")], kind="module"),
+    _inj_case([_a("_ja", "tmp", "module")], kind="module"),
+    # open finding (root D21): a dunder-like attribute of a suite CLASS is hidden from the loader — an invalid fixture
+    # is accepted, a valid one is never injected (class body, base class, __init__)
+    _inj_case([_a("__ja__", "nx")]),
+    _inj_case([_a("__ja__", "tmp", "base")]),
+    _inj_case([_a("__ja__", "conn", "init")]),
+    _inj_case([_a("__ja__", "db")]),
+    _inj_case([_a("__ja__", "db", "base")]),
+    _inj_case([_a("__ja__", "db", "init")]),
+    # D35 (repaired in /repo): the same fixture injected through two attributes of a suite — before the repair only the
+    # last one in dir() order was set; EVERY attribute must hold the value (witnesses kept first in both streams)
+    _inj_case([_a("ja", "db"), _a("jb", "db", "base")]),
+    _inj_case([_a("db", None), _a("jz", "db", "init")]),
+    _inj_case([_a("ja", "db"), _a("_jb", "db"), _a("__jc", "db", "init")]),
+    _inj_case([_a("_ja", "db", "module"), _a("_jb", "db", "module")], kind="module"),
+]
+
+CORPUS = SHAPE_CORPUS + [
     D18_WITNESS,
     dict(D18_WITNESS, keep=None),
-    # diamond of fixtures over four scopes, multi-name, fixture_name, builtin, per-thread used from test scope
-    {"policy": NOPOL, "fd": False, "keep": None, "defects": [],
-     "decls": [_d(["fa"], "session"), _d(["fb", "fb2"], "suite", ["fa", "cli_args"]), _d(["fc"], "test", ["fb", "fixture_name"]),
-               _d(["pt"], "suite", ["fa"], per_thread=True), _d(["fd"], "test", ["pt", "fc", "fb"], gen=True),
-               _d(["pre"], "pre_run", ["project_dir"], gen=True)],
-     "suites": [_s("s1", [_t("t1_1", ["fd", "p"], parameters=["p"]), _t("t2", ["fc", "pt"], disabled=True)],
-                   subs=[_s("u1", [_t("t3", ["fb"], deps=[{"path": "s1.t1_1"}])])], injected=["fa"], setup_args=["fb2", "pre"])]},
+    DIAMOND_CASE,
     # fixture cycles of length 1, 2, 6
     {"policy": NOPOL, "fd": False, "keep": None, "defects": [], "decls": [_d(["cy0"], "test", ["cy0"])],
      "suites": [_s("s1", [_t("t0")])]},
@@ -1058,7 +1474,9 @@ class Run(C.Stream):
     quick_seconds = 35
     thorough_seconds = 420
     chunk = 50
-    corpus = [dict(c, threads=n) for c in CORPUS[:3] for n in (1, 3)] + [dict(D1_WITNESS, threads=n) for n in (1, 3)]
+    corpus = ([dict(c, threads=(1, 3)[i % 2]) for i, c in enumerate(SHAPE_CORPUS)] +
+              [dict(c, threads=n) for c in (D18_WITNESS, dict(D18_WITNESS, keep=None), DIAMOND_CASE) for n in (1, 3)] +
+              [dict(D1_WITNESS, threads=n) for n in (1, 3)])
 
     def setup(self, ctx):
         self.top = tempfile.mkdtemp(prefix="lccverif-c14-")
@@ -1089,12 +1507,49 @@ class Run(C.Stream):
                                           "with nb_threads=%d: %s" % (n, run["exc"][:200]))]
             return fails + [C.Failure("C14/run/accepted-project-run-raises/" + exc,
                                       "the run of an accepted project raised (nb_threads=%d): %s" % (n, run["exc"]))]
+        # injected attributes that did not hold their fixture's value when a (correct) test body read them
+        by_path = dict(scheduled_suites(case))
+        explained, seen_cls = set(), set()
+        for h in run["hits"]:
+            if not h.startswith("inj-miss:"):
+                continue
+            _, spath, attr, tpath = h.split(":")
+            explained.add(tpath)
+            su = by_path.get(spath)
+            a = next((x for x in (su["attrs"] if su else []) if effective_name(su, x) == attr), None)
+            if a is None:
+                cls, why = "unknown-attribute", ""
+            elif exonerated_by_sibling(su, a, spath, tpath, run["hits"]):
+                # another attribute of the SAME input class injecting the SAME fixture held its value in this very read:
+                # not the shape / place, the double injection is to blame (D35)
+                cls, why = "same-fixture-injected-twice", " (another attribute of the suite injects the same fixture and holds the value)"
+            else:
+                cls, why = attr_class(su, a, fine=False), " (%s, assigned in %s)" % (shape_of(a["ident"]), a["place"])
+            if cls not in seen_cls:
+                seen_cls.add(cls)
+                fails.append(C.Failure("C14/run/injected-attribute-not-set/" + cls,
+                                       "accepted project, nb_threads=%d: attribute %s of suite %s%s does not hold the value of "
+                                       "the fixture it injects when test %s reads it; the test fails" % (n, attr, spath, why, tpath)))
+        # … and the tests skipped because they (transitively) depend on such a test
+        status = dict((t[0], t[1]) for t in run["tests"])
+        targets = dependency_targets(case)
+        blocked = set(explained)      # (a disabled test behind a failed one passes the skip on to its own dependants)
+        changed = bool(blocked)
+        while changed:
+            changed = False
+            for tp, st in status.items():
+                if tp not in blocked and st in ("skipped", "disabled") and any(q in blocked for q in targets.get(tp, ())):
+                    blocked.add(tp)
+                    changed = True
+        explained |= {tp for tp in blocked if status.get(tp) == "skipped"}
+        skipped_by_miss = {tp for tp in explained if status.get(tp) == "skipped"}
         notok = [t for t in run["tests"] if t[1] not in ("passed", "disabled")]
-        if notok:
-            fails.append(C.Failure("C14/run/accepted-project-test-not-passed/" + str(notok[0][1]),
+        other = [t for t in notok if t[0] not in explained]      # (the explained ones are reported above, by input class)
+        if other:
+            fails.append(C.Failure("C14/run/accepted-project-test-not-passed/" + str(other[0][1]),
                                    "tests neither passed nor disabled in the run of an accepted project with non-failing bodies "
-                                   "(nb_threads=%d): %s" % (n, notok[:4])))
-        if not run["successful"] or run["bad_setups"]:
+                                   "(nb_threads=%d): %s" % (n, other[:4])))
+        if run["bad_setups"] or (not run["successful"] and not notok):
             fails.append(C.Failure("C14/run/accepted-project-run-not-successful",
                                    "report not successful / failing setup or teardown: %s" % run["bad_setups"][:4]))
         keep = None if case["keep"] is None else set(case["keep"])
@@ -1111,6 +1566,8 @@ class Run(C.Stream):
                     continue
                 enabled = not (inh or s["disabled"] or t["disabled"])
                 want = 1 if (enabled or case["fd"]) else 0
+                if tp in skipped_by_miss:
+                    want = 0          # skipped behind a test that failed on an unset injected attribute (reported above)
                 got = run["hits"].get("test:" + tp, 0)
                 if got != want:
                     fails.append(C.Failure("C14/run/test-body-count", "test %s body ran %d times, expected %d" % (tp, got, want)))
@@ -1126,6 +1583,8 @@ class Run(C.Stream):
         run = obs["run"]
         if run["outcome"] != "returned":
             return None           # the oracle reports it
+        if any(t[1] == "skipped" for t in run["tests"]):
+            return None           # a test did not pass (the oracle reports it) and its dependants were skipped: counts are off
         # set-up counts of the (non per-thread) fixtures = number of scope instances the model schedules them in
         owner = {}
         for i, dcl in enumerate(case["decls"]):
@@ -1154,6 +1613,22 @@ class Run(C.Stream):
         bodies = {h[5:] for h in run["hits"] if h.startswith("test:")}
         if bodies != running:
             return "test bodies executed %s vs model %s" % (sorted(bodies), sorted(running))
+        # which injected attributes held their value when the running tests read them = what the model's injection step assigns
+        assigned = dict((p, set(names)) for p, names in ans.get("assigned", []))
+        for h in run["hits"]:
+            if h.startswith("inj-ok:") or h.startswith("inj-miss:"):
+                what, spath, attr, tpath = h.split(":")
+                if (what == "inj-ok") != (attr in assigned.get(spath, ())):
+                    return "attribute %s of suite %s read by %s: code %s, model assigns %s" % (
+                        attr, spath, tpath, what, sorted(assigned.get(spath, ())))
+        for spath, s in scheduled_suites(case):
+            for t in s["tests"]:
+                tp = spath + "." + t["name"]
+                if tp in running:
+                    for a in s["attrs"]:
+                        e = effective_name(s, a)
+                        if not any(("inj-ok:%s:%s:%s" % (spath, e, tp)) == h or ("inj-miss:%s:%s:%s" % (spath, e, tp)) == h for h in run["hits"]):
+                            return "test %s ran but did not read attribute %s" % (tp, e)
         return None
 
     def nontrivial(self, case, obs):
